@@ -383,7 +383,68 @@ def r6_mirror(cx):
         cx.ob("R6", "R6/%s" % name, ok, f, msg)
 
 
+def r7_plain_store_size_matches_data(cx):
+    """'sizes': the data size a plain value store declares (accumulated in finalize over the representatives of the runs
+    of equal values) is the size of what write_data emits (one copy per run of equal keys) only if all duplicates of a run
+    are rewritten to the ONE key whose offset was assigned: the remembered key changes only in an iteration that also
+    advances the size accumulator."""
+    F = cx.F
+    f = F.method("creator::directory_pack::value_store::PlainValueStore", "finalize")
+    b = F.body(f)
+    nx = b.calls(r"Iterator>::next$")
+    if len(nx) != 1:
+        raise AnchorLost("PlainValueStore::finalize: expected one loop, found %d" % len(nx))
+    n = nx[0][0]
+    loop = b.reach_after(n) & {x for x in range(len(b.blocks)) if n in b.reach_after(x)}
+    # the size accumulator: a local updated from itself by an addition, inside the loop
+    acc = {}
+    for i in loop:
+        for st in b.blocks[i]["s"]:
+            if st["k"] == "assign" and not st["lhs"].get("p") and st["rv"]["k"] == "use":
+                src = st["rv"]["op"].get("mv") or st["rv"]["op"].get("cp") or {}
+                for d in b.defs().get(src.get("l"), []):
+                    if d[0] == "stmt" and d[3]["rv"]["k"] == "bin" and d[3]["rv"]["op"].startswith("Add") and op_local(d[3]["rv"]["a"]) == st["lhs"]["l"]:
+                        acc.setdefault(st["lhs"]["l"], set()).add(i)
+    if len(acc) != 1:
+        raise AnchorLost("PlainValueStore::finalize: expected one size accumulator in the loop, found %s" % sorted(acc))
+    A = next(iter(acc.values()))
+    # the remembered key(s): user-named Option<usize> locals
+    M = [i for i, l in enumerate(b.locals) if l.get("name") and re.sub(r"\s", "", l.get("ty", "")) == "std::option::Option<usize>"]
+    if not M:
+        raise AnchorLost("PlainValueStore::finalize: no Option<usize> local remembering the previous key")
+    stores = []
+    for i in sorted(loop):
+        blk = b.blocks[i]
+        for st in blk["s"]:
+            if st["k"] in ("assign", "setdiscr") and st["lhs"]["l"] in M and "*" not in st["lhs"].get("p", []):
+                stores.append((i, st.get("ln"), "assignment"))
+            if st["k"] == "assign" and st["rv"]["k"] == "ref" and st["rv"].get("mut") and st["rv"]["pl"]["l"] in M:
+                stores.append((i, st.get("ln"), "&mut borrow"))
+    ok = bool(stores)
+    bad = []
+    for i, ln, how in stores:
+        same_iter = any(b.dominates(a, i) and i in b.reachable(a, avoid={n}) for a in A) or not (b.reachable(i, avoid=A) & {n})
+        if not same_iter:
+            bad.append("%s at line %s" % (how, ln))
+    cx.ob("R7", "R7/PlainValueStore.finalize/representative-has-an-offset", ok and not bad, f,
+          "every update of the remembered previous key (%d site(s)) happens in an iteration that also advances the declared size: %s" % (len(stores), bad or "ok"))
+    # write_data: one copy per run of equal keys -- the skip compares keys, and the key is remembered on the path that writes
+    g = F.one(impl_self="value_store::PlainValueStore", item="write_data", closure=False)
+    gb = F.body(g)
+    w = gb.calls(r"Serializer::write_data$", r"Write>::write_all$")
+    gn = gb.calls(r"Iterator>::next$")
+    if len(w) != 1 or len(gn) != 1:
+        raise AnchorLost("PlainValueStore::write_data: expected one loop with one write, found %d/%d" % (len(gn), len(w)))
+    W, gN = w[0][0], gn[0][0]
+    gM = [i for i, l in enumerate(gb.locals) if l.get("name") and re.sub(r"\s", "", l.get("ty", "")) == "std::option::Option<usize>"]
+    gst = [i for i, blk in enumerate(gb.blocks) for st in blk["s"] if st["k"] in ("assign", "setdiscr") and st["lhs"]["l"] in gM and i in gb.reach_after(gN) and gN in gb.reach_after(i)]
+    okw = bool(gst) and all(not (gb.reachable(i, avoid={W}) & {gN}) or gb.dominates(W, i) for i in gst)
+    cx.ob("R7", "R7/PlainValueStore.write_data/one-copy-per-remembered-key", okw, g,
+          "the key remembered for the skip test is updated exactly in the iterations that write the value")
+
+
 RULES = [
+    ("R7", r7_plain_store_size_matches_data, 2),
     ("R1", r1_layouts, 80),
     ("R2", r2_encodings, 18),
     ("R2", r2b_content_info_packing, 6),
